@@ -8,7 +8,7 @@ from ..runner import Suite
 
 MANIFEST = dict(
     text="Lean 4 theorems about a model of the JSON-RPC envelope layer (Model/Rpc.lean: the four envelope classes, emit = top-level exclude-none wire object, parseMsg = parse_message's legacy-first classification read through member presence, the constructors incl. result=None -> {}, the legacy class methods, the server's response builders, send_message's request building with progress-token injection, the dict-shaped errors of the batch processor and transports): for EVERY message built by any emitter, with arbitrary JSON payloads (any depth, nulls anywhere, integers of any size) and arbitrary int/string ids, the emitted object is valid JSON-RPC 2.0, parseMsg (emit m) yields the same kind and identical id (value and JSON type), method, params, result, error, nested nulls are untouched, and the composition with C17's decoder/encoders (any separator/escaping style) round-trips on the wire. Tied to the code by a correspondence run over emitters ENUMERATED BY INTROSPECTION (module walk for create_*/send_* functions, class methods, handler methods, and an AST scan for every dict literal with a 'jsonrpc' key; an emitter without a driver is reported) x payloads x ids, through model_dump(exclude_none=True), model_dump_json and the real stdio/HTTP/SSE serialisers.",
-    note="Trusted: Lean kernel (axioms propext, Classical.choice, Quot.sound only), the correspondence harness, introspection-based emitter discovery. Pydantic validation/serialisation is third-party: modelled (strict typing), sampled by the correspondence run. The params a typed helper builds from its arguments are taken from the observation (envelope-level correspondence); payload fidelity is checked where the payload position is part of the emitter's contract (constructors, send_message, handler results). Quick tier runs the Pydantic backend; thorough repeats every case under MCP_FORCE_FALLBACK=1 in a worker process.",
+    note="Trusted: Lean kernel (axioms propext, Classical.choice, Quot.sound only), the correspondence harness, introspection-based emitter discovery. Pydantic validation/serialisation is third-party: modelled (strict typing), sampled by the correspondence run. The params a typed helper builds from its arguments are taken from the observation (envelope-level correspondence); payload fidelity is checked where the payload position is part of the emitter's contract (constructors, send_message, handler results). Quick tier runs the Pydantic backend in full plus a reduced pass under MCP_FORCE_FALLBACK=1 (worker processes); thorough repeats every case under the fallback backend, with and without orjson.",
     technique="Lean 4 proof (case analysis over an inductive closure of emitters; composition with the C17 codec theorem) + differential correspondence run over introspected emitters",
     design="5/C02",
 )
@@ -25,12 +25,18 @@ THEOREMS = [
 RULE = (
     "emitters enumerated by introspection of the package at run time (create_* constructors, JSONRPCMessage.create_* class "
     "methods, send_message, every async function with a write_stream parameter, ProtocolHandler/MCPServer handlers and response "
-    "builders, BatchProcessor, every dict literal with a 'jsonrpc' key found by an AST scan, the stdio/HTTP/SSE serialisers) x "
-    "payloads (every JSON object of depth<=2 over {null, 0, 'a', {}, []} with <=2 members, seeded deep JSON with nulls, empty "
-    "containers, ints over the whole signed and unsigned 64-bit range, floats, control / U+2028 / astral characters) x ids (0, negative, 2^53.., 2^63.., "
-    "2^64-1, '', digit strings, non-ASCII); each emitted object is observed as model_dump(exclude_none=True) and as the decoded "
-    "model_dump_json text, checked against the JSON-RPC 2.0 grammar, re-parsed with the library's parse_message and compared "
-    "member by member, and compared with the Lean model's emit/parseMsg; non-trivial = distinct (emitter, arguments)"
+    "builders, BatchProcessor, every dict literal with a 'jsonrpc' key found by an AST scan, the real stdio/HTTP/SSE serialisers "
+    "fed with create_* products, instances built DIRECTLY from each public envelope class relying on its defaults, dicts, "
+    "parse_message/model_validate products and the products of every other emitter) x payloads (every JSON object of depth<=2 "
+    "over {null, 0, 'a', {}, []} with <=2 members, nulls nested at depth>=2 in dicts and lists, seeded deep JSON with empty "
+    "containers, ints over the whole signed and unsigned 64-bit range, floats, control / U+2028 / astral characters) x ids (0, "
+    "negative, 2^53.., 2^63.., 2^64-1, '', digit strings, ' 7 ', non-ASCII) x method names as strings and MessageMethod members x "
+    "handlers raising a spread of exception types (non-JSON args: bytes, objects, sets; no args; chained causes); each emitted "
+    "object is observed as model_dump(exclude_none=True), as the decoded model_dump_json text and as dumps(model_dump), checked "
+    "for serialisability, against the JSON-RPC 2.0 grammar, against the members the constructed message object holds, re-parsed "
+    "with the library's parse_message and compared member by member, and compared with the Lean model's emit/parseMsg; the quick "
+    "tier runs the Pydantic backend in full and a reduced pass (every nested-null case + every 3rd other) under "
+    "MCP_FORCE_FALLBACK=1 in worker processes; non-trivial = distinct (emitter, arguments)"
 )
 TRUSTED = [
     "Pydantic v2 validation / serialisation of the envelope classes (third-party; sampled)",
@@ -45,8 +51,8 @@ ASSUMPTIONS = [
 
 IDS = [{"i": 0}, {"i": 1}, {"i": -1}, {"i": 2 ** 53 + 1}, {"i": 2 ** 63 - 1}, {"i": 2 ** 63}, {"i": 2 ** 64 - 1}, {"i": -(2 ** 63)},
        J.S(""), J.S("0"), J.S("123"), J.S("-5"), J.S("007"), J.S("18446744073709551615"), J.S("abc"),
-       J.S("1e3"), J.S(" 1"), J.S("é \U0001F600"), J.S("a\nb")]
-QUICK_IDS = [{"i": 0}, {"i": -1}, {"i": 2 ** 63}, {"i": 2 ** 64 - 1}, J.S(""), J.S("123"), J.S("é \U0001F600")]
+       J.S("1e3"), J.S(" 1"), J.S(" 7 "), J.S("\t7\n"), J.S("é \U0001F600"), J.S("a\nb")]
+QUICK_IDS = [{"i": 0}, {"i": -1}, {"i": 2 ** 63}, {"i": 2 ** 64 - 1}, J.S(""), J.S("123"), J.S(" 7 "), J.S("é \U0001F600")]
 TEXTS = [J.cps("x"), J.cps(""), J.cps("tools/call"), J.cps("a\"b\\c\n\x00\x1f\x7f"), J.cps("é  \U0001F600")]
 LEAVES = [None, {"i": 0}, {"s": [97]}, {"o": []}, {"a": []}]
 KEYS = [[107], [0xE9]]
@@ -76,10 +82,33 @@ SPECIAL_PAYLOADS = [
     {"o": [[J.cps("_meta"), {"o": [[J.cps("progressToken"), {"s": J.cps("old")}], [J.cps("x"), None]]}], [J.cps("k"), None]]},
     {"o": [[J.cps("jsonrpc"), {"s": J.cps("1.0")}], [J.cps("id"), None], [J.cps("method"), {"i": 3}], [J.cps("result"), None], [J.cps("error"), None]]},
 ]
+NESTED_NULLS = [
+    {"o": [[J.cps("arguments"), {"o": [[J.cps("cursor"), None], [J.cps("deep"), {"o": [[J.cps("x"), {"o": [[J.cps("y"), None]]}]]}],
+                                        [J.cps("list"), {"a": [{"o": [[J.cps("z"), None]]}, {"a": [None]}, None]}]]}]]},
+    {"o": [[J.cps("a"), {"o": [[J.cps("b"), None]]}], [J.cps("c"), {"a": [{"o": [[J.cps("d"), None], [J.cps("e"), {"i": 1}]]}]}]]},
+]
+SPECIAL_PAYLOADS = SPECIAL_PAYLOADS[:1] + NESTED_NULLS + SPECIAL_PAYLOADS[1:]
+ENUM_METHODS = ["PING", "TOOLS_CALL", "NOTIFICATION_PROGRESS", "NOTIFICATION_CANCELLED"]
 BAD_META = [
     {"o": [[J.cps("_meta"), None]]}, {"o": [[J.cps("_meta"), {"s": J.cps("str")}]]}, {"o": [[J.cps("_meta"), {"a": []}]]},
     {"o": [[J.cps("_meta"), {"i": 1}]]},
 ]
+
+
+def _nested_null(t, depth=0):
+    if isinstance(t, dict):
+        if "o" in t:
+            return any((v is None and depth >= 1) or _nested_null(v, depth + 1) for _, v in t["o"])
+        if "a" in t:
+            return any((v is None and depth >= 1) or _nested_null(v, depth + 1) for v in t["a"])
+    return False
+
+
+def has_nested_null(case):
+    a = case["args"]
+    if isinstance(a.get("inner"), dict):
+        return has_nested_null(a["inner"])
+    return any(_nested_null(a.get(k)) for k in ("params", "result", "data", "payload"))
 
 
 def _case(emitter, **args):
@@ -152,6 +181,12 @@ def gen_cases(ctx, budget, names):
                     if not is_note:
                         a["id"] = pick_id()
                     out.append(_case(name, **a))
+                for en in ENUM_METHODS:
+                    for p in [None, SPECIAL_PAYLOADS[0]]:
+                        a = dict(method_enum=en, params=p)
+                        if not is_note:
+                            a["id"] = pick_id()
+                        out.append(_case(name, **a))
                 if short == "create_request" and not legacy:
                     for tok in ids:
                         for p in [None, {"o": []}] + SPECIAL_PAYLOADS + BAD_META:
@@ -163,10 +198,13 @@ def gen_cases(ctx, budget, names):
                         out.append(_case(name, method=pick_text(), params=p, mid=mid, progress=progress))
             for _ in range(200 if quick else 1000):
                 out.append(_case(name, method=pick_text(), params=rand_obj(rng), mid=rng.choice([None, J.cps("m1")]), progress=rng.random() < 0.5))
+            for en in ENUM_METHODS:
+                for progress in (False, True):
+                    out.append(_case(name, method_enum=en, params=SPECIAL_PAYLOADS[1], mid=J.cps(" 7 "), progress=progress))
         elif fam == "helper":
-            for opt in (False, True):
-                for t in TEXTS:
-                    out.append(_case(name, opt=opt, text=t, payload=rng.choice(SPECIAL_PAYLOADS), id=pick_id()))
+            for k, opt in enumerate((False, True)):
+                for j, t in enumerate(TEXTS):
+                    out.append(_case(name, opt=opt, text=t, payload=SPECIAL_PAYLOADS[(k * len(TEXTS) + j) % len(SPECIAL_PAYLOADS)], id=pick_id()))
             for _ in range(10 if quick else 60):
                 out.append(_case(name, opt=rng.random() < 0.5, text=pick_text(), payload=rand_obj(rng), id=pick_id()))
         elif fam == "server":
@@ -188,6 +226,9 @@ def gen_cases(ctx, budget, names):
                     for i in ids:
                         out.append(_case(name, id=i, method=J.cps(method), params=params, text=pick_text(),
                                          payload=rng.choice([J.S("txt"), SPECIAL_PAYLOADS[0], {"a": [J.S("a"), {"i": 1}]}, None, {"i": 5}])))
+                    if params is not None and "bad" in R.s_(params["o"][0][1].get("s", [])):
+                        for ek in R.EXC_KINDS:
+                            out.append(_case(name, id=pick_id(), method=J.cps(method), params=params, text=pick_text(), exc=ek))
             else:
                 scen = {
                     "handle_message": ["unknown", "no-method", "custom-result", "custom-raises", "ping", "initialize"],
@@ -205,6 +246,10 @@ def gen_cases(ctx, budget, names):
                             if sc == "initialize":
                                 params = {"o": [[J.cps("protocolVersion"), J.S("2025-06-18")], [J.cps("clientInfo"), {"o": [[J.cps("name"), J.S("c")]]}]]}
                             out.append(_case(name, scenario=sc, id=i, method=J.cps(method), params=params, payload=p, text=pick_text()))
+                if "custom-raises" in scen:
+                    for ek in R.EXC_KINDS:
+                        for t in TEXTS[:3]:
+                            out.append(_case(name, scenario="custom-raises", id=pick_id(), method=J.cps("x/custom"), text=t, exc=ek))
                 if short == "handle_message":
                     for _ in range(100 if quick else 600):
                         out.append(_case(name, scenario="custom-result", id=pick_id(), method=J.cps("x/custom"), payload=J.rand_value(rng, 4, 0.0)))
@@ -220,16 +265,31 @@ def gen_cases(ctx, budget, names):
                 for t in TEXTS[: (3 if quick else 5)]:
                     for opt in (False, True):
                         out.append(_case(name, id=i, text=t, opt=opt, payload=rng.choice(SPECIAL_PAYLOADS)))
+            for ek in R.EXC_KINDS:
+                out.append(_case(name, id=pick_id(), text=pick_text(), exc=ek, payload=SPECIAL_PAYLOADS[1]))
         elif fam == "transport":
-            for inner in ("request", "notification", "response", "error", "legacy-request", "dict"):
+            kinds = R.CREATED_INNERS + R.DIRECT_INNERS
+            for inner in kinds:
                 for i in ids:
-                    for p in [None, {"o": []}] + SPECIAL_PAYLOADS[:3]:
+                    for p in [None, {"o": []}] + SPECIAL_PAYLOADS[:4]:
                         a = dict(inner=inner, id=i, method=pick_text(), params=p, result=p, code=rng.choice(CODES), message=pick_text(), data=p)
                         out.append(_case(name, **a))
+                if "request" in inner or "notification" in inner:
+                    for en in ENUM_METHODS[:2]:
+                        out.append(_case(name, inner=inner, id=pick_id(), method_enum=en, params=SPECIAL_PAYLOADS[1]))
             for _ in range(40 if quick else 300):
                 p = rand_obj(rng)
-                out.append(_case(name, inner=rng.choice(["request", "notification", "response", "error", "dict"]), id=pick_id(),
+                out.append(_case(name, inner=rng.choice(kinds), id=pick_id(),
                                  method=pick_text(), params=p, result=p, code=rng.choice(CODES), message=pick_text(), data=p))
+            # whatever the other emitters produce goes through the real serialiser as well
+            routed = [c for c in out if D.get(c["emitter"], ("",))[0] in ("send_message", "helper", "server", "dict", "literal")]
+            by_em = {}
+            for c in routed:
+                by_em.setdefault(c["emitter"], []).append(c)
+            for em_name in sorted(by_em):
+                cs = by_em[em_name]
+                for c in rng.sample(cs, min(len(cs), 2 if quick else 8)):
+                    out.append(_case(name, inner={"emitter": c["emitter"], "args": c["args"]}))
     return out
 
 
@@ -319,6 +379,18 @@ def check_emitted(case, e, form):
     if g is not None:
         return (f"invalid/{g[0]}", f"{em} emits an invalid JSON-RPC 2.0 object ({form}): {g[1]}", {"valid": True})
     wv = wire_view(mem)
+    # the wire form carries what the message object that was constructed holds: id, method, params,
+    # result, error are identical (a member that is None on the object is absent from the wire)
+    ov = e.get("obj")
+    if ov is not None:
+        for k in ("id", "method", "params", "result", "error"):
+            a, b = ov[k], wv[k]
+            if a is not None and "v" not in a:
+                continue  # not a JSON value: reported by the serialisation checks
+            if (a is None) != (b is None) or (a is not None and canon(a["v"]) != canon(b["v"])):
+                return (f"wire-differs-from-message/{k}",
+                        f"{em}: the constructed {e.get('src')} holds {k}={a and a['v']} but its wire form ({form}) has {k}={b and b['v']}",
+                        {k: a})
     if wv["id"] is None and "method" not in mem:
         return None  # null-id error (batch rejection, transport error for a notification): validity only
     p = f["parse"]
@@ -340,6 +412,21 @@ def check_emitted(case, e, form):
     return None
 
 
+def inner_ctor(inner):
+    for k, v in (("request", "create_request"), ("notification", "create_notification"), ("response", "create_response"),
+                 ("error", "create_error_response"), ("dict", "create_request")):
+        if k in inner:
+            return v
+    raise ValueError(inner)
+
+
+def method_cps(a):
+    if a.get("method_enum"):
+        from chuk_mcp.protocol.messages.message_method import MessageMethod
+        return J.cps(MessageMethod[a["method_enum"]].value)
+    return a["method"]
+
+
 def expected_payload(case):
     """(member, expected transport value | ABSENT) where the emitter's contract fixes the payload position"""
     em, a = case["emitter"], case["args"]
@@ -348,10 +435,19 @@ def expected_payload(case):
     if fam == "ctor" or fam == "transport":
         inner = a.get("inner")
         if fam == "transport":
-            short = {"request": "create_request", "notification": "create_notification", "response": "create_response",
-                     "error": "create_error_response", "legacy-request": "create_request", "dict": "create_request"}[inner]
+            if isinstance(inner, dict):
+                return []
+            short = inner_ctor(inner)
+            if "legacy-response" in inner:
+                return [("id", a.get("id"))]
         if short in ("create_request", "create_notification") and a.get("tok") is None:
-            return [("params", a.get("params"))] + ([] if short == "create_notification" else [("id", a.get("id"))])
+            meth = []
+            if a.get("method_enum"):
+                from chuk_mcp.protocol.messages.message_method import MessageMethod
+                meth = [("method", J.S(MessageMethod[a["method_enum"]].value))]
+            elif a.get("method") is not None:
+                meth = [("method", {"s": a["method"]})]
+            return meth + [("params", a.get("params"))] + ([] if short == "create_notification" else [("id", a.get("id"))])
         if short == "create_response":
             r = a.get("result")
             return [("result", {"o": []} if r is None else r), ("id", a.get("id"))]
@@ -370,6 +466,7 @@ def expected_payload(case):
 class Emitters(Suite):
     name = "emitters"
     backend = "pydantic"
+    parallel = True  # runner: impl_batch over forked processes
 
     def __init__(self):
         self._obs = {}
@@ -388,13 +485,10 @@ class Emitters(Suite):
         return [R.run_case(c) for c in cases]
 
     def impl_batch(self, cases):
-        obs = self.run_impl(cases)
-        self._obs = {id(c): o for c, o in zip(cases, obs)}
-        return obs
+        return self.run_impl(cases)
 
     # -- model --------------------------------------------------------------------------------
-    def model_line(self, case):
-        o = self._obs.get(id(case))
+    def model_line(self, case, o=None):
         if o is None:
             return None
         if o.get("unknown"):
@@ -416,7 +510,7 @@ class Emitters(Suite):
         if o.get("unknown"):
             return None  # reported through compare (broken correspondence), not a violation by itself
         for e in o["emitted"]:
-            for form in ("dump", "json"):
+            for form in ("dump", "json", "dumpjson"):
                 r = check_emitted(case, e, form)
                 if r is not None:
                     return r
@@ -477,27 +571,50 @@ class EmittersFallback(Emitters):
     name = "emitters-fallback"
     backend = "fallback"
 
+    parallel = False  # its own pool of worker processes
+    block_orjson = False
+    n_workers = 6
+
     def _worker(self):
-        return J.worker(block_orjson=False, force_fallback=True, module="verifpy.rpc_worker")
+        return self._pool()[0]
+
+    def _pool(self):
+        pool = getattr(self, "_workers", None)
+        if not pool or any(w.p.poll() is not None for w in pool):
+            pool = self._workers = [J.worker(block_orjson=self.block_orjson, force_fallback=True, module="verifpy.rpc_worker", slot=i)
+                                    for i in range(self.n_workers)]
+        return pool
 
     def _discover(self):
         r = self._worker().call({"op": "discover"})
         return r["names"]
 
+    quick_too = True
+
     def cases(self, ctx, budget):
-        if budget == "quick":
+        if budget == "quick" and not self.quick_too:
             return []
         info = self._worker().call({"op": "info"})
         ctx.notes.append(f"{self.name}: worker backend {info}")
         if info.get("pydantic"):
             ctx.notes.append("emitters-fallback: MCP_FORCE_FALLBACK did not select the fallback backend; suite skipped")
             return []
-        return super().cases(ctx, budget)
+        cs = super().cases(ctx, budget)
+        if budget == "quick":
+            # reduced pass: every case whose payload carries a null nested at depth >= 2, every 3rd other case
+            cs = [c for i, c in enumerate(cs) if i % 3 == 0 or has_nested_null(c)]
+        return cs
 
     def run_impl(self, cases):
+        pool = self._pool() if len(cases) > 50 else self._pool()[:1]
+        n = len(pool)
+        size = (len(cases) + n - 1) // n if cases else 0
+        parts = [cases[i * size:(i + 1) * size] for i in range(n)] if size else []
+        for w, part in zip(pool, parts):
+            w.send({"op": "run", "cases": part})
         out = []
-        for i in range(0, len(cases), 500):
-            out += self._worker().call({"op": "run", "cases": cases[i:i + 500]})["out"]
+        for w, part in zip(pool, parts):
+            out += w.recv()["out"]
         return out
 
 
@@ -531,10 +648,10 @@ def model_line_for(case, o):
         if short == "create_request":
             fresh = (mem.get("id") or {}).get("s", []) if mem else []
             if legacy:
-                return {**base, "ctor": "legacy_create_request", "method": a["method"], "params": a.get("params"), "id": a.get("id"), "fresh": fresh}
-            return {**base, "ctor": "create_request", "method": a["method"], "params": a.get("params"), "id": a.get("id"), "fresh": fresh, "tok": a.get("tok")}
+                return {**base, "ctor": "legacy_create_request", "method": method_cps(a), "params": a.get("params"), "id": a.get("id"), "fresh": fresh}
+            return {**base, "ctor": "create_request", "method": method_cps(a), "params": a.get("params"), "id": a.get("id"), "fresh": fresh, "tok": a.get("tok")}
         if short == "create_notification":
-            return {**base, "ctor": "legacy_create_notification" if legacy else "create_notification", "method": a["method"], "params": a.get("params")}
+            return {**base, "ctor": "legacy_create_notification" if legacy else "create_notification", "method": method_cps(a), "params": a.get("params")}
         if short == "create_response":
             if legacy:
                 return {**base, "ctor": "legacy_create_response", "id": a.get("id"), "result": a.get("result")}
@@ -551,9 +668,13 @@ def model_line_for(case, o):
         return ctor_line(short, ".JSONRPCMessage." in em, ".ProtocolHandler." in em, a)
     if fam == "transport":
         inner = a.get("inner")
-        sh = {"request": "create_request", "notification": "create_notification", "response": "create_response",
-              "error": "create_error_response", "legacy-request": "create_request", "dict": "create_request"}[inner]
-        return ctor_line(sh, inner == "legacy-request", False, a)
+        if isinstance(inner, dict):
+            return model_line_for({"emitter": inner["emitter"], "args": inner.get("args") or {}}, o)
+        sh = inner_ctor(inner)
+        if "legacy-response" in inner:  # a dict result, `{}` otherwise
+            r = a.get("result")
+            return {**base, "ctor": "legacy_create_response", "id": a.get("id"), "result": r if isinstance(r, dict) and "o" in r else None}
+        return ctor_line(sh, "legacy" in inner, False, a)
     if fam == "send_message":
         fresh_id = (mem.get("id") or {}).get("s", []) if mem else []
         tok = []
@@ -561,7 +682,7 @@ def model_line_for(case, o):
             meta = members((members(mem["params"]) or {}).get("_meta")) or {}
             t = meta.get("progressToken")
             tok = t.get("s", []) if isinstance(t, dict) else []
-        return {**base, "ctor": "send_message_request", "method": a["method"], "params": a.get("params"), "mid": a.get("mid"),
+        return {**base, "ctor": "send_message_request", "method": method_cps(a), "params": a.get("params"), "mid": a.get("mid"),
                 "fresh_id": fresh_id, "fresh_tok": tok, "progress": bool(a.get("progress"))}
     if mem is None:
         return None  # nothing emitted by a helper / scenario: nothing to compare (the oracle has no claim either)
@@ -596,7 +717,8 @@ def compare_obs(case, o, m):
         return None
     if not o["emitted"]:
         return f"the model emits a message, the implementation emitted nothing (raised: {o.get('raised')})"
-    if fam in ("ctor", "send_message", "transport", "dict", "literal") and len(o["emitted"]) != 1:
+    if fam in ("ctor", "send_message", "transport", "dict", "literal") and len(o["emitted"]) != 1 \
+            and not isinstance(case["args"].get("inner"), dict):
         return f"{len(o['emitted'])} objects emitted, the model emits one"
     e = o["emitted"][0]
     if not m.get("valid"):
@@ -636,9 +758,9 @@ def canon_view(v):
 class EmittersFallbackStdlibJson(EmittersFallback):
     """… and with orjson blocked as well (the fallback backend serialises with fast_json)"""
     name = "emitters-fallback-stdlib-json"
+    quick_too = False
 
-    def _worker(self):
-        return J.worker(block_orjson=True, force_fallback=True, module="verifpy.rpc_worker")
+    block_orjson = True
 
 
 _suites = [Emitters(), EmittersFallback(), EmittersFallbackStdlibJson()]
